@@ -60,3 +60,5 @@ CFG = dict(
         "model the theorems are about; `rel*` lines evaluate the property on the implementation alone"
     ),
 )
+
+CFG["level_extra"] = ('The hypothesis NoDup (bins p) is proved from a line-by-line model of get_bins with the float trigonometry abstract (C15_get_bins_nodup, C15_get_bins_total, C15_cluster_pub_bins) and that model is tied to the implementation by c15bins cases.')
